@@ -180,3 +180,110 @@ def _mark_built_variable(ex, st, ci, args, kwargs, node):
     if ex.ctx.prop == PROP and ci.name == 'Variable' and not st.spec and not st.bound:
         st.ghost[('c17d-built', 'Variable')] = True
     return None
+
+
+# ---- f'{x}' of a string of statically unknown kind ------------------------------------------------------------------
+# LIBSPEC f'{x}' (one hole, no conversion, no format spec) of a str is the string itself.  The core applies this rule when
+#         the static kind of x is `str`; here also when x is untyped and the path condition ENTAILS that it is a string
+#         (`elif isinstance(variable, str): Variable(f'{variable}')`).  Otherwise the core's uninterpreted fmt!(x) is kept.
+import ast as _ast                                # noqa: E402
+from pyvc.vals import STR as _STR                 # noqa: E402
+
+_orig_fstring = _lib.fstring
+
+
+def _entails(st, fact, timeout=3000):
+    from pyvc.verify import heap_closure
+    s = _z3.Solver()
+    s.set('timeout', timeout)
+    s.add(*(list(st.pc) + heap_closure(st) + _VV.ATOMS.axioms() + [g for _, g in st.bound] + list(st.guards)))
+    s.add(_z3.Not(fact))
+    return str(s.check()) == 'unsat'
+
+
+def _fstring(ex, st, node):
+    if (ex.ctx.prop == PROP and len(node.values) == 1 and isinstance(node.values[0], _ast.FormattedValue)
+            and node.values[0].conversion == -1 and node.values[0].format_spec is None):
+        v = ex.ev(st, node.values[0].value)
+        if v.kind == 'any' and v.t is not None and _entails(st, _Val.is_s(v.t)):
+            ex.ctx.note("LIBSPEC f'{x}' of a string is the string itself (x untyped, a string on this path)")
+            return _V(v.t, _STR)
+    return _orig_fstring(ex, st, node)
+
+
+_lib.fstring = _fstring
+
+
+# ---- float.is_integer() ---------------------------------------------------------------------------------------------
+# LIBSPEC x.is_integer() <=> x is an integer-valued real (same LIBSPEC as pyvc/libext/c12_ext.py, which is scoped to C12);
+#         used by PowerConstant.__init__.  C17 only.
+from pyvc.vals import as_real as _as_real, v_bool as _v_bool      # noqa: E402
+
+_orig_value_method = _lib.value_method
+
+
+def _value_method(ex, st, recv, name, args, kwargs, node):
+    if ex.ctx.prop == PROP and name == 'is_integer' and recv.kind in ('real', 'int') and not args:
+        ex.ctx.note('LIBSPEC float.is_integer(): the value is an integer-valued real')
+        return _v_bool(_z3.IsInt(_as_real(recv)))
+    return _orig_value_method(ex, st, recv, name, args, kwargs, node)
+
+
+_lib.value_method = _value_method
+
+
+# ---- float(x) of a number of statically unknown kind ---------------------------------------------------------------
+# LIBSPEC float(x) for an untyped x is the core's uninterpreted float_of(x); added facts (Python semantics): float of a
+#         number is the number, float(True) == 1.0, float(False) == 0.0.  Used by Expression.__pow__ (`float(other)`).  C17 only.
+_orig_b_float = _lib.BUILTINS['float']
+
+
+def _b_float(ex, st, args, kw, node):
+    r = _orig_b_float(ex, st, args, kw, node)
+    if ex.ctx.prop == PROP and len(args) == 1 and args[0].kind in ('any', 'opt') and args[0].t is not None:
+        t = args[0].t
+        rr = _as_real(r)
+        st.assume(_z3.Implies(_Val.is_num(t), rr == _Val.nv(t)))
+        st.assume(_z3.Implies(_Val.is_b(t), rr == _z3.If(_Val.bv(t), _z3.RealVal(1), _z3.RealVal(0))))
+    return r
+
+
+_lib.BUILTINS['float'] = _b_float
+
+
+# ---- attribute / method of an untyped receiver whose class is entailed by the path -------------------------------------
+# ENGINE  `isinstance(other, Numeric)` ... `other.get_value()`, `isinstance(variable, Variable)` ... `variable.name`: same
+#         re-typing by entailment as for the operands of arithmetic operators (see _refined above).
+_REFINE_TO = ('Numeric', 'Variable', 'Beta', 'Expression')
+_orig_get_attr = _symexec.Executor.get_attr
+
+
+def _get_attr(self, st, obj, name, node=None):
+    if self.ctx.prop == PROP and obj.kind == 'any' and not st.spec:
+        obj = _refined(self, st, obj)
+    return _orig_get_attr(self, st, obj, name, node)
+
+
+_symexec.Executor.get_attr = _get_attr
+
+
+# ---- sum_range with concrete bounds: unfold every prefix ------------------------------------------------------------
+# ENGINE  the core unfolds a sum once at its upper end (S(hi) = S(hi-1) + f(hi-1)) and leaves the other steps to the
+#         quantified recurrence, whose pattern S(q+1) does not match S(4); for a sum over a list DISPLAY of known length
+#         (bioMultSum([r1, ..., r5]) in triangularpdf) every prefix is unfolded explicitly (instances of the recurrence).
+from pyvc.vals import as_int as _as_int, v_int as _v_int       # noqa: E402
+
+_inner_sum_range = _lib.SPEC_BUILTINS['sum_range']
+
+
+def _sum_range_unfold(ex, st, args, kw, node):
+    res = _inner_sum_range(ex, st, args, kw, node)
+    if ex.ctx.prop == PROP and len(args) == 3 and not st.bound:
+        lo, hi = _z3.simplify(_as_int(args[1])), _z3.simplify(_as_int(args[2]))
+        if _z3.is_int_value(lo) and _z3.is_int_value(hi) and 2 <= hi.as_long() - lo.as_long() <= 8:
+            for b in range(hi.as_long() - 1, lo.as_long(), -1):
+                _inner_sum_range(ex, st, [args[0], args[1], _v_int(_z3.IntVal(b))], kw, node)
+    return res
+
+
+_lib.SPEC_BUILTINS['sum_range'] = _sum_range_unfold
